@@ -129,8 +129,9 @@ def configs(ctx):
     for m in METHODS:
         for (t0, tf) in spans:
             for dt0 in dts:
-                deep = (not ctx.quick) or ((t0, tf) in sub_spans and dt0 in (0.25, 3.0, -0.25))
-                out.append(dict(method=m, dtype="float64", rhs="const", t0=t0, tf=tf, dt0=dt0, _depth=(3 if not ctx.quick else (2 if deep else 1))))
+                deep = (t0, tf) in sub_spans and dt0 in (0.25, 3.0, -0.25)
+                # quick: depth 2 on the sub-lattice, 1 elsewhere; thorough: depth 3 on the sub-lattice, 2 elsewhere
+                out.append(dict(method=m, dtype="float64", rhs="const", t0=t0, tf=tf, dt0=dt0, _depth=((3 if deep else 2) if not ctx.quick else (2 if deep else 1))))
         for (t0, tf) in sub_spans:
             for dt0 in (0.25, 3.0):
                 for dn in ("float32", "longdouble"):
@@ -148,7 +149,7 @@ def configs(ctx):
 
 def run(ctx):
     depth = 2 if ctx.quick else 3
-    ctx.rule = ("E1 breadth-first search over histories of {integrate(), integrate(T) for T in 7-point lattice, dt=0.125, dt=4} to depth %d from every "
+    ctx.rule = ("E1 breadth-first search over histories of {integrate(), integrate(T) for T in 7-point lattice, dt=0.125, dt=4} to depth %d (on a sub-lattice of 12 spans x 3 dt; one less elsewhere) from every "
                 "configuration (7 methods x 42 signed spans x 5 initial dt incl. oversized and negative x dtypes x {y'=const, oscillator}); states are "
                 "deduplicated by a canonical hash of all carried state; every transition executes the real OdeSystem and is checked against the "
                 "reference direction/target model; plus buffer-growth cells; distinct = distinct (method, dtype, direction, sign(t), sign(target), #rows) classes" % depth)
